@@ -197,7 +197,7 @@ theorem simpleLoop_slice (cols w : Nat) (hc : 0 < cols) :
 
 /-- The closed form of the formatted seek expression. -/
 theorem elementPosFmt_eq (p : Nat) : elementPosFmt p = p * 17 + p / 4 := by
-  unfold elementPosFmt
+  unfold elementPosFmt Gen.ESmrySeek.fmtPos
   simp only [Gen.EclIO.MaxBlockSizeReal, Gen.EclIO.numColumnsReal, Gen.EclIO.MaxNumBlockReal,
     Gen.EclIO.columnWidthReal]
   by_cases h : p / 4000 > 0
@@ -208,8 +208,11 @@ theorem elementPosFmt_eq (p : Nat) : elementPosFmt p = p * 17 + p / 4 := by
 theorem elementPosBin_points (es : List Bytes) (hes : ∀ e ∈ es, e.length = 4) (p : Nat) (hp : p < es.length) :
     ((encodeData .real es).drop (elementPosBin p)).take 4 = es[p] := by
   have h := elementPos_blocks 4 1000 (by omega) (by omega) (es.length + 1) es p hp hes (by omega)
-  simpa [encodeData, elementPosBin, elemSize, maxBlock, Gen.EclIO.sizeOfReal, Gen.EclIO.MaxBlockSizeReal,
-    Gen.EclIO.sizeOfInte] using h
+  have hpos : elementPosBin p = (2 * (p / 1000) + 1) * 4 + p * 4 := by
+    simp [elementPosBin, Gen.ESmrySeek.binPos, Gen.EclIO.sizeOfReal, Gen.EclIO.MaxBlockSizeReal,
+      Gen.EclIO.sizeOfInte]
+  rw [hpos]
+  simpa [encodeData, elemSize, maxBlock, Gen.EclIO.sizeOfReal, Gen.EclIO.MaxBlockSizeReal] using h
 
 /-- Formatted PARAMS record: the seek expression points at the 17-character field of element `p`. -/
 theorem elementPosFmt_points (fields : List (List Char)) (hw : ∀ f ∈ fields, f.length = Gen.EclIO.columnWidthReal)
